@@ -134,7 +134,7 @@ TEMPLATES = [
     "\\x -> ((for (i, h <<- [7]) i); {U})",
     "\\x -> ((for (h <- [1]) yield h: h); {U})",
     "\\x -> (g := \\h -> h * 2; g(1) + {U})",
-    "\\x -> (switch (x) case h -> h); {U}",
+    "\\x -> ((switch (x) case h -> h) + {U})",
     "\\x -> ((switch (x) case 0 -> (q := h; q) case _ -> 1) + {U})",
     "\\x, y = {U} -> x + y",
     "\\x -> (for (h <- [{U}, 2]) yield h)",
